@@ -18,3 +18,13 @@ package rule
 
 //@ iface (Executor).Execute
 //@   logged exec
+
+// C18: what the providers tell the rule set processor is recorded in ghost logs
+//@ iface (SetProcessor).OnCreated
+//@   logged onc
+
+//@ iface (SetProcessor).OnUpdated
+//@   logged onu
+
+//@ iface (SetProcessor).OnDeleted
+//@   logged ond
